@@ -202,12 +202,38 @@ func cmdS10(args []string) {
 				}
 				a, b := tf.Offset(fd.Pos()), tf.Offset(fd.End())
 				text := string(src[a:rw.From]) + rw.New + string(src[rw.To:b])
-				m := nameRE.FindStringSubmatch(text)
-				if m == nil {
-					continue
+				var m []string
+				var nm string
+				if hm := helperRE10.FindStringSubmatch(fd.Name.Name); hm != nil {
+					// the rewrite sits in a (generic) helper of scenario hm[1]: the rewritten unit is the
+					// rewritten helper plus a copy of the scenario function that calls it
+					var sfd *ast.FuncDecl
+					for _, d := range f.Decls {
+						if x, ok := d.(*ast.FuncDecl); ok && x.Name.Name == hm[1] {
+							sfd = x
+						}
+					}
+					if sfd == nil {
+						continue
+					}
+					nm = fmt.Sprintf("%s__rw%d", hm[1], len(rws))
+					hn := fmt.Sprintf("%s__rw%d", fd.Name.Name, len(rws))
+					text = strings.Replace(text, "func "+fd.Name.Name, "func "+hn, 1)
+					stext := string(src[tf.Offset(sfd.Pos()):tf.Offset(sfd.End())])
+					stext = strings.Replace(stext, "func "+hm[1]+"(", "func "+nm+"(", 1)
+					stext = strings.ReplaceAll(stext, fd.Name.Name+"(", hn+"(")
+					stext = strings.ReplaceAll(stext, fd.Name.Name+"[", hn+"[")
+					text = text + "\n\n" + stext
+					m = []string{"", hm[1]}
+					cnt.Add("rewrites_in_generic_helpers", 1)
+				} else {
+					m = nameRE.FindStringSubmatch(text)
+					if m == nil {
+						continue
+					}
+					nm = fmt.Sprintf("%s__rw%d", m[1], len(rws))
+					text = strings.Replace(text, "func "+m[1]+"(", "func "+nm+"(", 1)
 				}
-				nm := fmt.Sprintf("%s__rw%d", m[1], len(rws))
-				text = strings.Replace(text, "func "+m[1]+"(", "func "+nm+"(", 1)
 				rws = append(rws, rwFunc{nm, m[1], c.Info.Name, w.Text, text})
 				cnt.Add("rewrites_located", 1)
 				cnt.Add("rewrites:"+c.Info.Name, 1)
@@ -235,7 +261,7 @@ func cmdS10(args []string) {
 	}
 	for iter := 0; iter < 6; iter++ {
 		var b strings.Builder
-		b.WriteString("package main\n\nimport (\n\t\"bytes\"\n\t\"fmt\"\n\t\"strings\"\n\t\"time\"\n)\n\nvar _ = bytes.Index\nvar _ = fmt.Sprint\nvar _ = strings.Index\nvar _ = time.Now\n\n")
+		b.WriteString("package main\n\nimport (\n\t\"bytes\"\n\t\"flag\"\n\t\"fmt\"\n\t\"strings\"\n\t\"time\"\n)\n\nvar _ = bytes.Index\nvar _ = flag.Usage\nvar _ = fmt.Sprint\nvar _ = strings.Index\nvar _ = time.Now\n\n")
 		for _, r := range rws {
 			if !dropped[r.name] {
 				b.WriteString(r.src + "\n\n")
@@ -290,8 +316,8 @@ func cmdS10(args []string) {
 					continue
 				}
 				for _, d := range f.Decls {
-					if fd, ok := d.(*ast.FuncDecl); ok && fd.Pos() <= te.Pos && te.Pos <= fd.End() && !dropped[fd.Name.Name] {
-						dropped[fd.Name.Name] = true
+					if fd, ok := d.(*ast.FuncDecl); ok && fd.Pos() <= te.Pos && te.Pos <= fd.End() && !dropped[unitOf10(fd.Name.Name)] {
+						dropped[unitOf10(fd.Name.Name)] = true
 						progress = true
 						cnt.Add("rewrites_not_compiling_c09s_business", 1)
 					}
@@ -315,4 +341,15 @@ func cmdS10(args []string) {
 	cnt.Add("rewrites_in_runner", kept)
 	out.Emit(cnt.Stat())
 	out.Emit(map[string]interface{}{"kind": "done"})
+}
+
+var helperRE10 = regexp.MustCompile(`^(S\d+)_h\w*$`)
+var helperCopyRE10 = regexp.MustCompile(`^(S\d+)_h\w*?__rw(\d+)$`)
+
+// unitOf10 maps the rewritten copy of a helper to the rewritten copy of its scenario.
+func unitOf10(name string) string {
+	if m := helperCopyRE10.FindStringSubmatch(name); m != nil {
+		return m[1] + "__rw" + m[2]
+	}
+	return name
 }
